@@ -111,3 +111,82 @@ func ParseFrozen(b []byte) (*Set32, *FrozenLayout, error) {
 	}
 	return out, L, nil
 }
+
+// EncodeFrozen lays a stream out in the frozen format exactly as it is described:
+// whatever kind each chunk declares, whatever its cardinality (the portable
+// format derives array/bitmap from the cardinality; the frozen format stores a
+// typecode, so a stream may declare an array of 5000 values or a bitmap of 10).
+func EncodeFrozen(s *Stream32) []byte {
+	var bitsets, runs, arrays, keys, counts, types []byte
+	for _, c := range s.Chunks {
+		keys = binary.LittleEndian.AppendUint16(keys, c.Key)
+		switch c.Kind {
+		case 0:
+			for _, w := range c.Words {
+				bitsets = binary.LittleEndian.AppendUint64(bitsets, w)
+			}
+			counts = binary.LittleEndian.AppendUint16(counts, c.CardField)
+			types = append(types, 1)
+		case 1:
+			for _, v := range c.Vals {
+				arrays = binary.LittleEndian.AppendUint16(arrays, v)
+			}
+			counts = binary.LittleEndian.AppendUint16(counts, uint16(len(c.Vals)-1))
+			types = append(types, 2)
+		default:
+			for _, r := range c.Runs {
+				runs = binary.LittleEndian.AppendUint16(runs, r[0])
+				runs = binary.LittleEndian.AppendUint16(runs, r[1])
+			}
+			counts = binary.LittleEndian.AppendUint16(counts, uint16(len(c.Runs)))
+			types = append(types, 3)
+		}
+	}
+	out := append(append(append(append(append(bitsets, runs...), arrays...), keys...), counts...), types...)
+	return binary.LittleEndian.AppendUint32(out, uint32(frozenCookie15)|uint32(len(s.Chunks))<<15)
+}
+
+// Rekind re-expresses a chunk's contents in another representation, ignoring the
+// cardinality rule that normally decides between array and bitmap.
+func (c *SChunk) Rekind(kind int) {
+	var w [1024]uint64
+	switch c.Kind {
+	case 0:
+		copy(w[:], c.Words)
+	case 1:
+		for _, v := range c.Vals {
+			w[v>>6] |= 1 << (v & 63)
+		}
+	default:
+		for _, r := range c.Runs {
+			for x := int(r[0]); x <= int(r[0])+int(r[1]) && x < 65536; x++ {
+				w[x>>6] |= 1 << (uint(x) & 63)
+			}
+		}
+	}
+	card := 0
+	c.Words, c.Vals, c.Runs = nil, nil, nil
+	c.Kind = kind
+	start := -1
+	for i := 0; i <= 65536; i++ {
+		set := i < 65536 && w[i>>6]&(1<<(uint(i)&63)) != 0
+		if set {
+			card++
+			if kind == 1 {
+				c.Vals = append(c.Vals, uint16(i))
+			}
+			if start < 0 {
+				start = i
+			}
+		} else if start >= 0 {
+			if kind == 2 {
+				c.Runs = append(c.Runs, [2]uint16{uint16(start), uint16(i - 1 - start)})
+			}
+			start = -1
+		}
+	}
+	if kind == 0 {
+		c.Words = append([]uint64(nil), w[:]...)
+	}
+	c.CardField = uint16(card - 1)
+}
